@@ -395,9 +395,11 @@ func (fr *Frame) localByName(st *State, name string, b *ssa.BasicBlock) (CV, boo
 		if _, isVar := d.Object().(*types.Var); !isVar {
 			continue
 		}
-		if !d.IsAddr && !types.Identical(d.X.Type(), d.Object().Type()) {
-			// the reference was recorded on an implicitly converted value (e.g. boxed into an interface)
-			continue
+		if !d.IsAddr && types.IsInterface(d.X.Type()) && !types.IsInterface(d.Object().Type()) {
+			if _, isTP := types.Unalias(d.Object().Type()).(*types.TypeParam); !isTP {
+				// the reference was recorded on an implicitly converted value (boxed into an interface)
+				continue
+			}
 		}
 		s := 0
 		switch v := d.X.(type) {
